@@ -54,6 +54,7 @@ import (
 	govv1 "github.com/cosmos/cosmos-sdk/x/gov/types/v1"
 	"github.com/cosmos/gogoproto/proto"
 	gethcommon "github.com/ethereum/go-ethereum/common"
+	gethcore "github.com/ethereum/go-ethereum/core/types"
 	"github.com/ethereum/go-ethereum/crypto"
 
 	"verifharness/c17/txutil"
@@ -137,6 +138,7 @@ type node struct {
 	Price string `json:"price,omitempty"` // eth (legacy tx): gas price in wei ("" = 10^12 = 1 unibi)
 	Cap   string `json:"cap,omitempty"`   // eth (dynamic-fee tx when set): gas fee cap in wei
 	Tip   string `json:"tip,omitempty"`   // eth (dynamic-fee tx): gas tip cap in wei
+	Ty    string `json:"ty,omitempty"`    // eth: "" legacy (type 0; dynamic-fee = type 2 when cap is set) | al = access-list tx (type 1, EIP-2930) with an empty list | al1 = … listing one address with one storage key
 	Prog  string `json:"prog,omitempty"`  // eth: what the EVM is asked to do (see progs)
 	Val   string `json:"val,omitempty"`   // eth: value in unibi ("" = 1)
 	Bad   bool   `json:"bad,omitempty"`   // eth: tampered signature
@@ -390,6 +392,18 @@ func (w *world) build(n node, top bool, b *built) (sdk.Msg, error) {
 		} else {
 			args.GasPrice = nominal
 		}
+		switch n.Ty {
+		case "":
+		case "al":
+			args.Accesses = &gethcore.AccessList{}
+		case "al1":
+			args.Accesses = &gethcore.AccessList{{Address: w.ethSink, StorageKeys: []gethcommon.Hash{{31: 1}}}}
+		default:
+			return nil, fmt.Errorf("eth ty %q", n.Ty)
+		}
+		if n.Ty != "" && (n.Cap != "" || n.Bad) {
+			return nil, fmt.Errorf("eth ty %q with cap / bad", n.Ty)
+		}
 		msg, err := w.c.SignEth(w.eths[i], args)
 		if err != nil {
 			return nil, err
@@ -418,8 +432,16 @@ func (w *world) build(n node, top bool, b *built) (sdk.Msg, error) {
 		}
 		b.hashes = append(b.hashes, msg.AsTransaction().Hash().Hex())
 		if top {
-			f := new(big.Int).Mul(eff, big.NewInt(int64(n.Gas)))
-			b.fee.Add(b.fee, f.Quo(f, base))
+			// the UNSIGNED wrapper (AuthInfo fee / gas limit) is filled in the way the node's JSON-RPC layer does it
+			// (MsgEthereumTx.BuildTx: the code's own EffectiveFeeWei): anybody relaying the signed bytes can and will
+			// choose the value EthValidateBasic accepts.  What the signer is CHARGED is judged independently (Pb prices
+			// with the effective price written out in tools/props/c02.py)
+			_ = eff
+			td, err := evm.UnpackTxData(msg.Data)
+			if err != nil {
+				return nil, err
+			}
+			b.fee.Add(b.fee, evm.WeiToNative(td.EffectiveFeeWei(base)))
 			b.gas += uint64(n.Gas)
 		}
 		return msg, nil
@@ -590,6 +612,14 @@ func (w *world) runTx(tx txIn) txObs {
 	return o
 }
 
+// extra intrinsic gas of the access list: 2400 per address + 1900 per storage key (written out, independent of the code)
+func tyIntrinsic(ty string) int {
+	if ty == "al1" {
+		return 2400 + 1900
+	}
+	return 0
+}
+
 var shared *world
 
 func runCase(t *testing.T, ci caseIn, fresh bool) []txObs {
@@ -633,7 +663,7 @@ func (g *gen) execShape(n *node) {
 		pn = ""
 	}
 	pg := progs[pn]
-	intr := pg.intrinsic()
+	intr := pg.intrinsic() + tyIntrinsic(n.Ty)
 	n.Prog = pn
 	switch r.Pick(6, 3, 2, 3, 1) {
 	case 0:
@@ -662,7 +692,7 @@ func (g *gen) valueShape(n *node) {
 	shape := r.Pick(3, 3, 2, 3, 3, 5, 3, 1)
 	if shape == 5 && r.Chance(3, 4) {
 		// a gas price below the base fee opens the window between the two limits
-		n.Cap, n.Tip = "", ""
+		n.Cap, n.Tip = "", "" // (an access-list tx stays one: type 1 is priced by gasPrice as well)
 		n.Price = []string{"0", "1", "500000000000", "999999999999"}[r.Intn(4)]
 	}
 	nominal, _, eff, err := prices(*n)
@@ -764,7 +794,7 @@ func (g *gen) admit(ms []node) bool {
 	}
 	failed := false
 	for _, p := range ps {
-		intr := p.pg.intrinsic()
+		intr := p.pg.intrinsic() + tyIntrinsic(p.n.Ty)
 		if p.n.Gas < intr {
 			failed = true
 			break
@@ -814,14 +844,25 @@ func (g *gen) ethLeaf(from int) node {
 			n.Gas = 100000
 		}
 	}
+	// transaction type: legacy / access-list (EIP-2930) / dynamic-fee (chosen with the price below)
+	isAL := !n.Bad && g.r.Chance(1, 3)
+	if isAL {
+		n.Ty = []string{"al", "al", "al1"}[g.r.Intn(3)]
+		if n.Gas == 21000 {
+			n.Gas += tyIntrinsic(n.Ty)
+		}
+	}
 	// what the EVM is asked to do: creations / contract calls / large values, ending in every way
 	shaped := !n.Bad && n.Gas != 20000 && (g.r.Chance(3, 5) || from == idPoor && g.r.Chance(2, 3))
 	if shaped {
 		g.execShape(&n)
 	}
 	// gas price: mostly NOT a whole number of unibi (10^12 wei) per gas; legacy or dynamic-fee
-	if !n.Bad {
-		switch g.r.Pick(5, 7, 4) {
+	if isAL {
+		// every type at prices below / at / above the base fee, down to 0 and 1 wei
+		n.Price = []string{"0", "1", "500000000000", "999999999999", "1000000000000", "1000000000001", "1999999999999", "3000000000007", ""}[g.r.Intn(9)]
+	} else if !n.Bad {
+		switch g.r.Pick(5, 7, 5) {
 		case 1:
 			n.Price = []string{"1999999999999", "1000000000001", "1500000000000", "3000000000007", "12345678901234",
 				"2000000000000", "999999999999", "1000000000000", "0", "1", "500000000000"}[g.r.Intn(11)]
@@ -831,7 +872,8 @@ func (g *gen) ethLeaf(from int) node {
 			}
 		case 2:
 			ct := [][2]string{{"5000000000000", "1"}, {"1999999999999", "999999999999"}, {"2500000000001", "999999999999"},
-				{"1000000000000", "0"}, {"7000000000000", "2000000000003"}, {"1000000000001", "5"}}[g.r.Intn(6)]
+				{"1000000000000", "0"}, {"7000000000000", "2000000000003"}, {"1000000000001", "5"},
+				{"1", "0"}, {"1", "1"}, {"0", "0"}, {"500000000000", "3"}, {"999999999999", "999999999999"}}[g.r.Intn(11)]
 			n.Cap, n.Tip = ct[0], ct[1]
 		}
 	}
@@ -1105,6 +1147,13 @@ func openers() []caseIn {
 			evm(ex2(21, 0, "", 21000, "600000000000000", ""), ex2(21, 1, "c-stop", 80000, "600000000000000", "")),
 			evm(ex2(21, 2, "k-stop", 30000, "300000000000000", ""), ex2(21, 3, "k-stop", 30000, "300000000000000", ""), ex2(22, 0, "c-revert", 60000, "7", "")),
 			evm(ex2(21, 1, "c-stop", 80000, "600000000000000", ""))}},
+		// the three transaction types at prices below / at / above the base fee, with leftover gas to refund and another
+		// payer in the same transaction (so that the fee collector could pay an unearned refund)
+		{Txs: []txIn{evm(node{K: "eth", From: 20, Nonce: 0, Gas: 21000, Price: "5000000000000"}, node{K: "eth", From: 21, Nonce: 0, Gas: 100000, Price: "1", Ty: "al"}),
+			evm(node{K: "eth", From: 21, Nonce: 1, Gas: 100000, Price: "0", Ty: "al1"}),
+			evm(node{K: "eth", From: 20, Nonce: 1, Gas: 21000, Price: "5000000000000", Ty: "al"}, node{K: "eth", From: 22, Nonce: 0, Gas: 100000, Cap: "1", Tip: "1"}, node{K: "eth", From: 21, Nonce: 2, Gas: 100000, Price: "1"}),
+			evm(node{K: "eth", From: 22, Nonce: 1, Gas: 50000, Price: "1999999999999", Ty: "al"}, node{K: "eth", From: 22, Nonce: 2, Gas: 50000, Cap: "500000000000", Tip: "3"}),
+			evm(ex2(23, 0, "c-stop", 100000, "250000", "1")), evm(node{K: "eth", From: 23, Nonce: 1, Gas: 90000, Price: "1", Ty: "al", Prog: "k-revert", Val: "10"})}},
 		// extension-option routing with the wrong content
 		{Txs: []txIn{{Ext: "evm", Key: "cosmos", Signer: 1, Msgs: []node{{K: "send", From: 1}}}, {Ext: "evm", Key: "none", Signer: -1, Msgs: []node{eth(20, 0), {K: "send", From: 1}}},
 			{Ext: "other", Key: "none", Signer: -1, Msgs: []node{eth(20, 0)}}, {Ext: "other", Key: "cosmos", Signer: 1, Msgs: []node{{K: "send", From: 1}}},
